@@ -42,7 +42,7 @@ Proof.
   intros Hwf Hsp. destruct (spec_residual_facts _ _ _ Hsp) as [Hdiv Hord].
   unfold wf_residual in Hwf.
   apply andb_prop in Hwf. destruct Hwf as [H Hparts]. apply andb_prop in H. destruct H as [H Hlens].
-  apply andb_prop in H. destruct H as [Hm Hpo].
+  apply andb_prop in H. destruct H as [H _]. apply andb_prop in H. destruct H as [Hm Hpo].
   apply N.ltb_lt in Hm. apply N.ltb_lt in Hpo.
   apply lens_eqb_spec in Hlens.
   destruct (layout_agree _ _ _ _ Hdiv Hord Hlens) as (L1 & L2 & L3). cbv zeta in L1, L2, L3.
@@ -55,7 +55,7 @@ Proof.
   { assert (order < bs); [|lia]. eapply N.lt_le_trans; [exact Hord|]. apply N.div_le_upper_bound; [apply N.pow_nonzero; discriminate|].
     assert (2 ^ po <> 0) by (apply N.pow_nonzero; discriminate). nia. }
   rewrite En.
-  eapply encodes_bind_nil. { apply encodes_guard. apply Nat.leb_le. exact L1. }
+  eapply encodes_bind_nil. { apply encodes_guard. apply Nat.eqb_eq. exact L1. }
   rewrite L2.
   eapply encodes_bind_nil. { apply encodes_guard. apply Nat.eqb_eq. exact L3. }
   apply encodes_dec_partitions. exact Hparts.
@@ -111,7 +111,7 @@ Definition width_ok (w : Z) (bps : N) : Prop := (w = 32%Z /\ bps <= 32) \/ (w = 
 
 Theorem dec_subframe_agree bs bps w sf :
   width_ok w bps -> wf_subframe bs bps sf = true -> spec_subframe bs bps sf = true ->
-  encodes (dec_subframe Release w bps (N.to_nat bs)) (write_subframe bps sf) (sem_subframe bs sf).
+  encodes (dec_subframe w bps (N.to_nat bs)) (write_subframe bps sf) (sem_subframe bs sf).
 Proof.
   intros Hwid Hwf Hsp. unfold wf_subframe in Hwf.
   apply andb_prop in Hwf. destruct Hwf as [H Hbody]. apply andb_prop in H. destruct H as [Hb Hw].
